@@ -149,6 +149,28 @@ pub fn gen_c08(tier: &str, seed: u64, out: &mut Vec<String>) {
                     areas[k].len = n2;
                 }
             }
+            if rng.chance(1, 25) {
+                // grow towards the area that follows: up to its first byte is fine, one byte further is not
+                let k = rng.below(areas.len() as u64) as usize;
+                let a = areas[k].clone();
+                let next = areas.iter().filter(|b| b.start > a.start).map(|b| b.start).min();
+                if let Some(ns) = next {
+                    if ns - a.start <= 0x4000 && a.start != 0x1000 {
+                        let delta = *rng.pick(&[0i64, 1, 1, 2, -1]);
+                        let nl = ((ns - a.start) as i64 + delta).max(0) as u64;
+                        out.push(format!("resize {:x} {:x}", a.start, nl));
+                        out.push(format!("mr 1 {:x}", ns));
+                        out.push(format!("mr 8 {:x}", ns.wrapping_sub(4)));
+                        out.push(format!("mw 2 {:x} 1234", ns.wrapping_sub(1)));
+                        out.push(format!("mr 2 {:x}", ns.wrapping_sub(1)));
+                        out.push(format!("mr 1 {:x}", ns));
+                        out.push("areas".into());
+                        if delta <= 0 {
+                            areas[k].len = nl;
+                        }
+                    }
+                }
+            }
             if rng.chance(1, 40) {
                 // a resize no host can satisfy fails and leaves the byte store as it was: the bounds at the old end still hold
                 let a = rng.pick(&areas).clone();
@@ -229,6 +251,71 @@ pub fn gen_c09(tier: &str, seed: u64, out: &mut Vec<String>) {
             out.push("mrx 400004".into());
             out.push("step".into());
             out.push("state".into());
+        }
+        // a fetch ends where the executable area ends: an instruction whose bytes continue in an adjacent area — whatever that
+        // area's mask — is truncated (a decode error), never completed from the neighbour
+        for full in [vec![0x48u8, 0xc7, 0xc0, 0x2a, 0, 0, 0], vec![0xb8, 1, 0, 0, 0], vec![0x48, 0x89, 0xd8], vec![0x0f, 0x1f, 0x44, 0x00, 0x00]] {
+            for cut in 1..full.len() {
+                if !rng.chance(1, 2) {
+                    continue;
+                }
+                let head = full[..cut].to_vec();
+                let mut tail = full[cut..].to_vec();
+                tail.resize(16, 0x90);
+                out.push(format!("new {} {:x} {:x}", hex(&head), 0x40_0000, 0x40_0000));
+                crate::decode::dec_all(&head, 0x40_0000, out);
+                out.push(format!("area {:x} {} ~", 0x40_0000 + cut as u64, hex(&tail)));
+                out.push(format!("prot {:x} {:x}", 0x40_0000 + cut as u64, *rng.pick(&[3u64, 0, 7, 5, 1])));
+                out.push("setregs 1111,0,0,2222,0,0,0,0,0,0,0,0,0,0,0,0,400000".into());
+                out.push("areas".into());
+                out.push("step".into());
+                out.push("regs".into());
+                out.push("state".into());
+            }
+        }
+        // stores made on behalf of the guest by the built-in syscall handlers are stores: pipe read() into memory that may not
+        // be written is denied and leaves it unchanged (the bytes stay in the pipe)
+        for target_mask in [5u64, 1, 0, 4] {
+            // syscall ; jmp back
+            let code = vec![0x0fu8, 0x05, 0xeb, 0xfc, 0x90, 0x90, 0x90, 0x90, 0x90, 0x90, 0x90, 0x90, 0x90, 0x90, 0x90, 0x90];
+            out.push(format!("new {} {:x} {:x}", hex(&code), 0x40_0000, 0x40_0000));
+            crate::decode::dec_all(&code, 0x40_0000, out);
+            out.push("setregs 0,0,0,0,0,0,0,0,0,0,0,0,0,0,0,0,400000".into());
+            out.push("zero 200000 100 ~".into());
+            out.push(format!("area 300000 {} ~", hex(&rand_bytes(&mut rng, 0x20))));
+            out.push(format!("prot 300000 {:x}", target_mask));
+            out.push("syscalls 22".into());
+            out.push("rw 64 RAX 16".into());
+            out.push("rw 64 RDI 200000".into());
+            out.push("step".into());
+            out.push("step".into());
+            out.push(format!("mwb 200040 {}", hex(&rand_bytes(&mut rng, 8))));
+            out.push("rw 64 RAX 1".into());
+            out.push("ldreg RDI 200008".into());
+            out.push("rw 64 RSI 200040".into());
+            out.push("rw 64 RDX 8".into());
+            out.push("step".into());
+            out.push("rr 64 RAX".into());
+            out.push("step".into());
+            // read into the non-writable area / into the code area itself
+            let dst = if rng.chance(1, 2) { 0x30_0008u64 } else { 0x40_0006 };
+            out.push("rw 64 RAX 0".into());
+            out.push("ldreg RDI 200000".into());
+            out.push(format!("rw 64 RSI {:x}", dst));
+            out.push("rw 64 RDX 8".into());
+            out.push("step".into());
+            out.push("state".into());
+            out.push("areas".into());
+            out.push(format!("rw 64 RIP {:x}", 0x40_0000));
+            // the bytes are still there for a read into writable memory
+            out.push("rw 64 RAX 0".into());
+            out.push("ldreg RDI 200000".into());
+            out.push("rw 64 RSI 200080".into());
+            out.push("rw 64 RDX 8".into());
+            out.push("step".into());
+            out.push("rr 64 RAX".into());
+            out.push("mrb 200080 8".into());
+            out.push("areas".into());
         }
         // the constructor's code area is R+X: not writable, fetchable
         out.push(format!("new {} {:x} {:x}", hex(&rand_bytes(&mut rng, 20)), 0x40_0000, 0x40_0000));
